@@ -220,6 +220,16 @@ def common_summaries():
         m = deref(ex, st, argv[0])
         return [(st, Bool(z3.Not(z3.Or(*[e[2] for e in m.entries])) if m.entries else True))]
 
+    @reg(r'^HashMap::<.*>::len$')
+    def hm_len(ex, st, fn, argv):
+        m = deref(ex, st, argv[0])
+        if not isinstance(m, AssocMap):
+            return NotImplemented
+        n = z3.BitVecVal(0, 64)
+        for e in m.entries:
+            n = n + z3.If(e[2], z3.BitVecVal(1, 64), z3.BitVecVal(0, 64))
+        return [(st, Int(n, 64, False))]
+
     @reg(r'^HashMap::<.*>::new$')
     def hm_new(ex, st, fn, argv):
         return [(st, AssocMap('map'))]
